@@ -183,6 +183,40 @@ static void dump_ts(const sbdf_tableslice* t)
 	putchar(')');
 }
 
+/* decoded view: what sbdf_va_get_values / sbdf_va_row_cnt deliver for every array of a slice */
+static void dec_va(sbdf_valuearray* v)
+{
+	sbdf_object* o = 0; int e;
+	if (!v) { printf("null"); return; }
+	e = sbdf_va_get_values(v, &o);
+	printf("%d:%d:", sbdf_va_row_cnt(v), e);
+	if (!e) { dump_obj(o); sbdf_obj_destroy(o); }
+}
+static void dec_cs(sbdf_columnslice* c)
+{
+	int i;
+	if (!c) { printf("absent"); return; }
+	printf("CSD(rows=%d ", sbdf_cs_row_cnt(c)); dec_va(c->values);
+	for (i = 0; i < c->prop_cnt; ++i)
+	{
+		sbdf_valuearray* v = 0; int e = sbdf_cs_get_property(c, c->property_names[i], &v);
+		putchar(' '); puthex((unsigned char*)c->property_names[i], (size_t)sbdf_str_len(c->property_names[i]));
+		printf("=%d:", e); dec_va(e ? 0 : v);
+	}
+	putchar(')');
+}
+static void dec_ts(sbdf_tableslice* t)
+{
+	int i;
+	if (!t) { printf("null"); return; }
+	printf("TSD(");
+	for (i = 0; i < t->no_columns; ++i) { if (i) putchar(' '); dec_cs(t->columns[i]); }
+	putchar(')');
+}
+
+static int last_e = 0;     /* status of the last status-returning call (strict mode) */
+static int strict = 0;
+
 /* ------------------------------------------------------------------ the interpreter */
 #define MAXTOK (1 << 20)
 static char* tok[MAXTOK]; static int ntok;
@@ -240,11 +274,17 @@ static void subset_of(const char* t, int n, char** out)
 	for (i = 0; i < n && (size_t)i < l; ++i) (*out)[i] = (char)(t[i] != '0');
 }
 
+static void run_session(istream* in, const char* mode);
+
 static void run_line(void)
 {
 	const char* op = tok[0];
-	int e;
+	int e = 0;
 	printf("%d %s ", lineno, op);
+	if (!strcmp(op, "strict")) { strict = 1; printf("0\n"); return; }
+	if (!strcmp(op, "session")) { run_session(IN(1), ntok > 2 ? tok[2] : "*"); putchar('\n'); return; }
+	if (!strcmp(op, "tsdec")) { dec_ts(TS(1)); putchar('\n'); return; }
+	if (!strcmp(op, "csdec")) { dec_cs(CS(1)); putchar('\n'); return; }
 	if (!strcmp(op, "obj") || !strcmp(op, "objs"))
 	{
 		sbdf_object* o; e = mk_obj(atoi(tok[2]), atoi(tok[3]), 4, !strcmp(op, "obj"), &o);
@@ -420,7 +460,7 @@ static void run_line(void)
 		{
 			sbdf_tableslice* t = SENTINEL; e = sbdf_ts_read(IN(1)->f, m, sub, &t);
 			if (e) { printf("end=%d n=%d #out=%s", e, n, outstate(t)); break; }
-			dump_ts(t); putchar(' '); sbdf_ts_destroy(t); ++n;
+			dump_ts(t); putchar(' '); dec_ts(t); putchar(' '); sbdf_ts_destroy(t); ++n;
 			if (n > 100000) { printf("end=RUNAWAY"); break; }
 		}
 		free(sub);
@@ -482,6 +522,57 @@ static void run_line(void)
 	}
 	else { printf("?"); fprintf(stderr, "unknown op %s at line %d\n", op, lineno); exit(3); }
 	putchar('\n');
+}
+
+/* a complete reading session on one input: header, table metadata, every accessor on it, slices
+   (mode "*": all columns, "skip": sbdf_ts_skip, otherwise a subset string) with raw and decoded
+   dumps, then everything that was read is written back and destroyed */
+static void run_session(istream* in, const char* mode)
+{
+	int ma = -7, mi = -7, e, i, n = 0; sbdf_tablemetadata* tm = SENTINEL; char* sub = 0;
+	sbdf_tableslice* kept[64]; int nk = 0; ostream* o; int badout = 0;
+	e = sbdf_fh_read(in->f, &ma, &mi);
+	printf("fh=%d", e); if (e) return;
+	printf(":%d.%d", ma, mi);
+	e = sbdf_tm_read(in->f, &tm);
+	printf(" tm=%d", e); if (e) { printf(" #out=%s", outstate(tm)); return; }
+	putchar(' '); dump_tm(tm);
+	for (i = 0; i < tm->no_columns && i < 64; ++i)
+	{
+		char* nm = SENTINEL; sbdf_valuetype vt; int e1, e2; vt.id = -77;
+		e1 = sbdf_cm_get_name(tm->column_metadata[i], &nm); e2 = sbdf_cm_get_type(tm->column_metadata[i], &vt);
+		printf(" c%d=%d:", i, e1); if (!e1) { puthex((unsigned char*)nm, (size_t)sbdf_str_len(nm)); sbdf_str_destroy(nm); }
+		printf(":%d:%d", e2, e2 ? 0 : vt.id);
+	}
+	if (!strcmp(mode, "skip"))
+	{
+		for (;;) { e = sbdf_ts_skip(in->f, tm); if (e) break; if (++n > 100000) { e = 12345; break; } }
+	}
+	else
+	{
+		subset_of(mode, tm->no_columns, &sub);
+		for (;;)
+		{
+			sbdf_tableslice* t = SENTINEL; e = sbdf_ts_read(in->f, tm, sub, &t);
+			if (e) { if (t != SENTINEL && t != 0) badout = 1; break; }
+			putchar(' '); dump_ts(t); putchar(' '); dec_ts(t); ++n;
+			if (nk < 64) kept[nk++] = t; else sbdf_ts_destroy(t);
+			if (n > 100000) { e = 12345; break; }
+		}
+		free(sub);
+	}
+	printf(" end=%d n=%d", e, n);
+	if (e == SBDF_TABLEEND) printf(" pos=%ld", pos_of(in));
+	o = out_new(-1);
+	e = sbdf_fh_write_cur(o->f);
+	if (!e) e = sbdf_tm_write(o->f, tm);
+	for (i = 0; i < nk && !e; ++i) e = sbdf_ts_write(o->f, kept[i]);
+	if (!e) e = sbdf_ts_write_end(o->f);
+	printf(" rw=%d:", e); puthex(o->buf, o->n);
+	fclose(o->f); free(o->buf); free(o);
+	for (i = 0; i < nk; ++i) sbdf_ts_destroy(kept[i]);
+	sbdf_tm_destroy(tm);
+	if (badout) printf(" #out=set");
 }
 
 static void cleanup_case(void)
